@@ -84,7 +84,11 @@ extern "C" void h_cross_thread() {
     reset(); loop_tid = pthread_self();
     {
         BACKEND loop; static BACKEND *L; L = &loop; XL = &loop;
+#ifdef XAPI_FIX
+        XAPI = XAPI_FIX;                                                               // one entry point per solver run (deeper preemption bounds)
+#else
         XAPI = nondet_uchar(); VP_ASSUME(XAPI <= 3);
+#endif
         bool before = nondet_bool();
         if (before) loop.runInLoop([] { mark(0); }, "pre"); else { ran[0] = 1; ran_at[0] = seq++; }          // a task submitted before the loop runs
         if (XAPI >= 2) loop.runNext([] { XT = new std::thread(xbody); }, "spawn");                               // run() picks the unlocked path while the loop is not running: the submitter starts once the loop runs
